@@ -1,3 +1,5 @@
-From Coq Require Import Extraction ExtrOcamlBasic.
+From Coq Require Import Extraction ExtrOcamlBasic ZArith.
 From V Require Import Base.Tree Pkg.All.
+Definition run := pkg_run.
+Definition spec := pkg_spec.
 Extraction "model.ml" run spec.
